@@ -144,3 +144,50 @@ Proof.
   - constructor.
   - intros x [].
 Qed.
+
+(* ---------- the surprising-value table never outgrows its capacity ---------- *)
+(* what a stream must satisfy at the matrix M' reached after one more pair, C' = its number of coupons:
+   while the sketch is (still) sparse, the C' coupons fit the table; afterwards the surprising values of M' fit it
+   both at the window offset before the pair (where a new surprising one is inserted) and at the correct offset of
+   C' (where move_window rebuilds the table) *)
+Definition fits (lgk : N) (M' : matrix) (C' : N) : Prop :=
+  (32 * C' < 3 * 2 ^ lgk + 32 -> tbl_full lgk (load lgk M' false 0) = false) /\
+  (3 * 2 ^ lgk <= 32 * C' ->
+     tbl_full lgk (load lgk M' true (coff (2 ^ lgk) (C' - 1))) = false /\
+     tbl_full lgk (load lgk M' true (coff (2 ^ lgk) C')) = false).
+
+Fixpoint fits_stream (lgk : N) (M : matrix) (cs : list N) : Prop :=
+  match cs with
+  | [] => True
+  | x :: r => fits lgk (spec_update M x) (pop_rows (spec_update M x) (Knat lgk)) /\ fits_stream lgk (spec_update M x) r
+  end.
+
+(* boolean form, for checking concrete streams by computation *)
+Definition fitsb (lgk : N) (M' : matrix) (C' : N) : bool :=
+  (negb (32 * C' <? 3 * 2 ^ lgk + 32) || negb (tbl_full lgk (load lgk M' false 0))) &&
+  (negb (3 * 2 ^ lgk <=? 32 * C') ||
+   (negb (tbl_full lgk (load lgk M' true (coff (2 ^ lgk) (C' - 1)))) &&
+    negb (tbl_full lgk (load lgk M' true (coff (2 ^ lgk) C'))))).
+
+Fixpoint fits_streamb (lgk : N) (M : matrix) (cs : list N) : bool :=
+  match cs with
+  | [] => true
+  | x :: r => fitsb lgk (spec_update M x) (pop_rows (spec_update M x) (Knat lgk)) && fits_streamb lgk (spec_update M x) r
+  end.
+
+Lemma fitsb_sound : forall lgk M C, fitsb lgk M C = true -> fits lgk M C.
+Proof.
+  intros lgk M C H. unfold fitsb in H. apply andb_true_iff in H. destruct H as [H1 H2]. split.
+  - intros L. assert (E : 32 * C <? 3 * 2 ^ lgk + 32 = true) by lia. rewrite E in H1. cbn [negb orb] in H1.
+    destruct (tbl_full lgk (load lgk M false 0)); [discriminate|reflexivity].
+  - intros L. assert (E : 3 * 2 ^ lgk <=? 32 * C = true) by lia. rewrite E in H2. cbn [negb orb] in H2.
+    apply andb_true_iff in H2. destruct H2 as [A B].
+    split; [destruct (tbl_full lgk (load lgk M true (coff (2 ^ lgk) (C - 1)))); [discriminate|reflexivity]|
+            destruct (tbl_full lgk (load lgk M true (coff (2 ^ lgk) C))); [discriminate|reflexivity]].
+Qed.
+
+Lemma fits_streamb_sound : forall lgk cs M, fits_streamb lgk M cs = true -> fits_stream lgk M cs.
+Proof.
+  intros lgk cs. induction cs as [|x cs IH]; intros M H; cbn [fits_stream fits_streamb] in *; [exact I|].
+  apply andb_true_iff in H. destruct H as [H1 H2]. split; [apply fitsb_sound; exact H1|apply IH; exact H2].
+Qed.
